@@ -192,7 +192,7 @@ json::Value exprJ(Ctx& X, const Expr* E, int depth = 0) {
     return json::Object{{"op", "bin"}, {"o", bo->getOpcodeStr().str()}, {"l", exprJ(X, bo->getLHS(), depth + 1)}, {"r", exprJ(X, bo->getRHS(), depth + 1)}};
   }
   if (auto* uo = dyn_cast<UnaryOperator>(S)) {
-    if (uo->getOpcode() == UO_LNot || uo->getOpcode() == UO_Not || uo->getOpcode() == UO_Minus)
+    if (uo->getOpcode() == UO_LNot || uo->getOpcode() == UO_Not || uo->getOpcode() == UO_Minus || uo->getOpcode() == UO_AddrOf || uo->getOpcode() == UO_Deref)
       return json::Object{{"op", "un"}, {"o", UnaryOperator::getOpcodeStr(uo->getOpcode()).str()}, {"e", exprJ(X, uo->getSubExpr(), depth + 1)}};
   }
   if (auto* oc = dyn_cast<CXXOperatorCallExpr>(S)) {
@@ -278,6 +278,13 @@ json::Value eventOf(Ctx& X, const Stmt* st) {
   if (auto* bo = dyn_cast<BinaryOperator>(st)) {
     if (bo->isAssignmentOp()) {
       json::Object o{{"k", "assign"}, {"o", bo->getOpcodeStr().str()}, {"line", lineOf(X, bo->getBeginLoc())}, {"lhs", pathOf(X, bo->getLHS())}, {"rhs", exprJ(X, bo->getRHS())}};
+      {
+        const Expr* L = bo->getLHS()->IgnoreParenImpCasts();
+        bool deref = false;
+        if (auto* lu = dyn_cast<UnaryOperator>(L)) deref = lu->getOpcode() == UO_Deref;
+        else if (auto* lo = dyn_cast<CXXOperatorCallExpr>(L)) deref = lo->getOperator() == OO_Star && lo->getNumArgs() == 1;
+        if (deref) o["deref"] = true;
+      }
       std::string m = macroOf(X, bo->getBeginLoc()); if (!m.empty()) o["macro"] = m;
       return std::move(o);
     }
